@@ -23,6 +23,12 @@ pub struct CombSpec {
     pub family: Family,
     pub container: Container,
     pub children: Vec<ChildSpec>,
+    /// the *type* dimension: 0 = children and values have destructors (the
+    /// harness observes every drop); 1 = the child type has no drop glue
+    /// (a `Copy` handle) while its values have; 2 = the children have
+    /// destructors while the values they produce have none. Code that consults
+    /// `mem::needs_drop` behaves differently for these.
+    pub variant: u8,
 }
 
 #[derive(Clone, Copy, Debug, PartialEq, Eq, Hash)]
@@ -116,7 +122,17 @@ impl CombSpec {
                 ChildSpec::Inner(i) => i.show(),
             })
             .collect();
-        format!("{:?}/{:?}({})", self.family, self.container, kids.join(", "))
+        format!(
+            "{:?}/{:?}{}({})",
+            self.family,
+            self.container,
+            match self.variant {
+                1 => "[children without drop glue]",
+                2 => "[values without drop glue]",
+                _ => "",
+            },
+            kids.join(", ")
+        )
     }
 }
 
